@@ -290,4 +290,44 @@ def verifyHostname (c : Cert) (h : Str) : Res Verdict :=
       | .err => .err
       | .panic => .panic
 
+/-! ### HostnameError.Error  (`san.String()` of the IP SANs is an input: `net.IP.String` is not modelled) -/
+
+/-- "x509: cannot validate certificate for " -/
+def msgCannot : Str := [120, 53, 48, 57, 58, 32, 99, 97, 110, 110, 111, 116, 32, 118, 97, 108, 105, 100, 97, 116, 101, 32, 99, 101, 114, 116, 105, 102, 105, 99, 97, 116, 101, 32, 102, 111, 114, 32]
+/-- " because it doesn't contain any IP SANs" -/
+def msgNoIPSANs : Str := [32, 98, 101, 99, 97, 117, 115, 101, 32, 105, 116, 32, 100, 111, 101, 115, 110, 39, 116, 32, 99, 111, 110, 116, 97, 105, 110, 32, 97, 110, 121, 32, 73, 80, 32, 83, 65, 78, 115]
+/-- ", " -/
+def commaSp : Str := [44, 32]
+/-- "x509: certificate is not valid for any names, but wanted to match " -/
+def msgNoNames : Str := [120, 53, 48, 57, 58, 32, 99, 101, 114, 116, 105, 102, 105, 99, 97, 116, 101, 32, 105, 115, 32, 110, 111, 116, 32, 118, 97, 108, 105, 100, 32, 102, 111, 114, 32, 97, 110, 121, 32, 110, 97, 109, 101, 115, 44, 32, 98, 117, 116, 32, 119, 97, 110, 116, 101, 100, 32, 116, 111, 32, 109, 97, 116, 99, 104, 32]
+/-- "x509: certificate is valid for " -/
+def msgValidFor : Str := [120, 53, 48, 57, 58, 32, 99, 101, 114, 116, 105, 102, 105, 99, 97, 116, 101, 32, 105, 115, 32, 118, 97, 108, 105, 100, 32, 102, 111, 114, 32]
+/-- ", not " -/
+def msgNot : Str := [44, 32, 110, 111, 116, 32]
+
+/-- the `for _, san := range c.IPAddresses` loop: `if len(valid) > 0 { valid += ", " }; valid += san.String()` -/
+def joinValid (valid : Str) : List Str → Str
+  | [] => valid
+  | s :: r => joinValid ((if valid.length > 0 then valid ++ commaSp else valid) ++ s) r
+
+/-- `strings.Join(l, ", ")` -/
+def joinComma : List Str → Str
+  | [] => []
+  | [x] => x
+  | x :: y :: r => x ++ commaSp ++ joinComma (y :: r)
+
+/-- the tail of `Error` once `valid` is known -/
+def msgTail (valid host : Str) : Str :=
+  if valid.length = 0 then msgNoNames ++ host else msgValidFor ++ valid ++ msgNot ++ host
+
+/-- `HostnameError{c, host}.Error()`; `ipStrs` = `san.String()` for each IP SAN, in order. -/
+def hostnameErrorMsg (c : Cert) (host : Str) (ipStrs : List Str) : Str :=
+  match parseIP host with
+  | some _ =>
+    if c.ipAddresses.length = 0 then msgCannot ++ host ++ msgNoIPSANs
+    else msgTail (joinValid [] ipStrs) host
+  | none =>
+    if hasSANExtension c then msgTail (joinComma c.dnsNames) host
+    else msgTail c.commonName host
+
 end ZV.C09
